@@ -404,6 +404,7 @@ class Check:
             import gen
             import literals
             self.new_literals = literals.new()
+            self.new_literals += [w for w in literals.new_regex_samples() if w not in self.new_literals]
             gen.inject(self.new_literals)
             self.new_ints = literals.new_ints()
             gen.inject_ints(self.new_ints)
